@@ -240,6 +240,12 @@ def operands(rng, alg, n_each=1, max_keys=None):
         m = rng.randint(1, min(mk_, n, 5))
         ks = rng.sample(canon, m)
         out.append(('sparse', [(k, rand_frac(rng)) for k in ks]))
+    # two blades of one grade without a common generator (never a simple blade): exists from d = 4 on
+    for _ in range(2 if alg.d >= 4 else 0):
+        k0 = rng.choice([c for c in canon if 2 <= bin(c).count('1') <= alg.d - 2] or [canon[-1]])
+        comp = [c for c in canon if bin(c).count('1') == bin(k0).count('1') and c & k0 == 0]
+        if comp:
+            out.append(('pure-grade-nonsimple', [(k0, rand_frac(rng)), (rng.choice(comp), rand_frac(rng))]))
     # deliberately singular or special
     k = rng.choice(canon)
     out.append(('blade', [(k, rand_frac(rng))]))
@@ -278,9 +284,16 @@ def run(R, tier):
         sig = [rng.choice((1, -1, 0, 1)) for _ in range(d)]
         specs.append(({'sig': sig, 'basis': algs.random_basis(rng, d)}, None))
     specs += [({'pqr': (2, 0, 1)}, None), ({'pqr': (3, 0, 1)}, None), ({'pqr': (1, 3, 0)}, None)]
-    for d in ((6, 6, 6, 6, 7, 7, 7) if quick else [rng.choice((6, 6, 7, 7, 8)) for _ in range(60)]):
+    specs.append(({'sig': [rng.choice((1, -1)) for _ in range(7)]}, 4))          # non-degenerate 7-D: the many-step operand
+    for d in ((6, 6, 6, 7, 7) if quick else [rng.choice((6, 6, 7, 7, 8)) for _ in range(60)]):
         specs.append(({'sig': [rng.choice((1, -1, 0, 1, -1)) for _ in range(d)]}, 4))
 
+    # every class of algebra gets its turn inside the time budget: the long-running classes first, then the rest shuffled
+    head = [sp for sp in specs if len(algs.norm(sp[0])['sig']) >= 6][:3] + [sp for sp in specs if len(algs.norm(sp[0])['sig']) == 4][:3]
+    rest = [sp for sp in specs if not any(sp is h for h in head)]
+    rng.shuffle(rest)
+    specs = head + rest
+    many_step_done = False
     tie_budget = {'hitzer': 120 if quick else 3000, 'inv': 120 if quick else 3000, 'shirokov': 2 if quick else 12}
     p_tie = 0.3 if quick else 1.0
     for spec, max_keys in specs:
@@ -297,6 +310,12 @@ def run(R, tier):
             canon = [int(k) for k in alg.canon2bin.values()]
             ops_ = [('sparse', [(k, rand_frac(rng)) for k in rng.sample(canon, rng.randint(1, 4))]) for _ in range(2)]
             ops_.append(('one-plus-blade', [(0, Fr(1)), (rng.choice(canon[1:]), Fr(1))]))
+            if d == 7 and not many_step_done and all(s_ != 0 for s_ in alg.signature):
+                # an operand whose iteration needs many rounds: three commuting bivectors and a pseudoscalar part
+                many_step_done = True
+                ops_.insert(0, ('many-step', [(3, Fr(2)), (12, Fr(1)), (48, Fr(4)), (127, Fr(8))]))
+            elif d == 6:
+                ops_.insert(0, ('many-step', [(3, Fr(2)), (12, Fr(1)), (48, Fr(4))]))
         prev = None
         for kind_, items in ops_:
             R.count(f'd={d}'); R.count('kind=' + kind_); R.count('basis=' + algs.kind(spec))
@@ -371,6 +390,7 @@ def run(R, tier):
         R.notes.append(f"d >= 6 (float path): {ROUNDING['n']} coefficient comparisons were off by more than 1e-9 relative (worst {ROUNDING['worst']:.2e}, "
                        f"below the gross-error bound {GROSS}); counted as rounding, not as violations")
         ROUNDING['n'], ROUNDING['worst'] = 0, 0.0
+    mutation_stream(R, rng, tier)
     bad, shown = kv.run_cases('C07', cases, imports='Model.All Model.Inverse', prelude='From Coq Require Import QArith.\nOpen Scope Z_scope.',
                               shard=60)
     for i in bad:
@@ -378,6 +398,40 @@ def run(R, tier):
         R.violation({'clause': 'model-' + m['kind'], 'basis': algs.kind(m['spec'])},
                     {'algebra': m['spec'], 'x': m['x'], 'impl': m['impl'], 'model': shown.get(i), 'clause': 'model-' + m['kind']},
                     f'{m["kind"]}: implementation {m["impl"]} differs from Model/Inverse.v on x={m["x"]} in Algebra({algs.describe(m["spec"])}); model: {shown.get(i)}')
+
+
+def mutation_stream(R, rng, tier):
+    """x.inv() after x was updated in place (x[i] = ..., or writing into x.values()): still the inverse of the CURRENT x."""
+    import numpy as np
+    from kingdon import MultiVector
+    for it in range(6 if tier == 'quick' else 60):
+        d = rng.choice((2, 3, 3))
+        spec = {'sig': [rng.choice((1, -1, 1)) for _ in range(d)]}
+        alg = algs.make_impl(spec)
+        canon = [int(k) for k in alg.canon2bin.values()]
+        ks = tuple([0] + rng.sample(canon[1:], rng.randint(1, 2)))
+        n = 3
+        vals = np.array([[float(rng.randint(2, 6))] * n] + [[float(rng.randint(-2, 2)) for _ in range(n)] for _ in ks[1:]])
+        x = MultiVector.fromkeysvalues(alg, ks, vals.copy())
+        R.count('kind=in-place-update'); R.case(('mutation', algs.describe(spec), ks, it), True)
+        try:
+            x.inv(); x ** -1
+            if it % 2:
+                x[1] = MultiVector.fromkeysvalues(alg, ks, [float(rng.randint(7, 9))] + [float(rng.randint(1, 3)) for _ in ks[1:]])
+            else:
+                x.values()[0][2] = 11.0
+            xi = x.inv()
+            one = x * xi
+            ok = all(np.allclose(np.asarray(v, dtype=float), 1.0 if k == 0 else 0.0, atol=1e-9) for k, v in zip(one.keys(), one.values()))
+        except ZeroDivisionError:
+            continue
+        except Exception as e:  # noqa
+            ok = False
+        if not ok:
+            R.violation({'clause': 'right-inverse', 'basis': 'default', 'd': d, 'history': 'in-place-update'},
+                        {'algebra': spec, 'keys': list(ks), 'steps': 'x.inv(); update x in place; x.inv()', 'clause': 'in-place-update'},
+                        f'after an in-place update of an array-valued x (keys {ks}) in Algebra({algs.describe(spec)}) x*x.inv() is not 1: '
+                        f'x.inv() is not the inverse of the current x')
 
 
 def replay(R, rec):
